@@ -69,8 +69,7 @@ Print Assumptions float_tiny_roundtrip.
 (* 6. the text written for a tree tokenizes to exactly the tree's token sequence (only white space is
       not a token), in both layouts, at any depth *)
 Theorem tokens_roundtrip_indented : forall d,
-  wf_tree (TDict d) = true -> lists_ok (Some O) (TDict d) = true ->
-  tokenize (wv (Some O) (TDict d)) = vtoks (TDict d).
+  wf_tree (TDict d) = true -> tokenize (wv (Some O) (TDict d)) = vtoks (TDict d).
 Proof. exact ProofsWrite.tokens_of_indented. Qed.
 Print Assumptions tokens_roundtrip_indented.
 
@@ -80,30 +79,32 @@ Proof. exact ProofsWrite.tokens_of_compact. Qed.
 Print Assumptions tokens_roundtrip_compact.
 
 (* ------------------------------------------------------------------ the round trip *)
-(* 7. EngineData (indented, with container): every well-formed tree whose indented Lists hold Dicts only
-      is written without error and read back equal -- any depth, any width *)
+(* 7. EngineData (indented, with container): every well-formed tree is written without error and read back
+      equal -- any depth, any width, Lists of any mixture of items.  (Until commit 073f171 this needed the
+      guard "a List written with an indent holds Dicts only": finding F-C18-2, now fixed.) *)
 Theorem parse_print_indented : forall d,
-  wf_tree (TDict d) = true -> lists_ok (Some O) (TDict d) = true ->
-  exists bs, write Indented d = Ok bs /\ parse bs = Ok d.
+  wf_tree (TDict d) = true -> exists bs, write Indented d = Ok bs /\ parse bs = Ok d.
 Proof. exact ProofsWrite.parse_write_indented. Qed.
 Print Assumptions parse_print_indented.
 
-(* 8. EngineData2 (compact, no container): every well-formed tree, no condition on Lists *)
+(* 8. EngineData2 (compact, no container): every well-formed tree *)
 Theorem parse_print_compact : forall d,
   wf_tree (TDict d) = true -> exists bs, write Compact d = Ok bs /\ parse bs = Ok d.
 Proof. exact ProofsWrite.parse_write_compact. Qed.
 Print Assumptions parse_print_compact.
 
 (* the hypotheses are satisfiable by a tree with every element class, nesting through Dicts and Lists, strings
-   ending in byte 0x5C, a List of Dicts (indented), a List holding a Dict after a number (compact inside) *)
+   ending in byte 0x5C, a List of Dicts (indented), a List holding a Dict after a number (compact inside),
+   a List with a Dict first and other items after it (the former F-C18-2 class) *)
 Definition sample : kvs :=
   [([69;110], TDict [([84], TStr [1;92;0;40;0;41;0;92]); ([118], TList [TFloat (Fl true 50000000 false); TInt (-7); TInt 0]);
                      ([114], TList [TDict [([97], TBool true)]; TDict []]);
                      ([109], TList [TInt 5; TDict [([120], TList [TList []; TList [TStr []]])]]);
-                     ([116], TTag [40;104;119;105;100;41]); ([112], TProp [95;57])]);
+                     ([116], TTag [40;104;119;105;100;41]); ([112], TProp [95;57]);
+                     ([122], TList [TDict []; TInt 5; TFloat (Fl false 550000000 false); TList [TInt 1]; TDict [([97], TStr [0;120])]; TBool false])]);
    ([48], TList [])].
-Example parse_print_hyp : wf_tree (TDict sample) = true /\ lists_ok (Some O) (TDict sample) = true.
-Proof. split; vm_compute; reflexivity. Qed.
+Example parse_print_hyp : wf_tree (TDict sample) = true.
+Proof. vm_compute. reflexivity. Qed.
 Example parse_print_sample :
   (exists bs, write Indented sample = Ok bs /\ parse bs = Ok sample) /\
   (exists bs, write Compact sample = Ok bs /\ parse bs = Ok sample).
@@ -114,7 +115,6 @@ Qed.
 (* 9. what was written is rewritten byte for byte after being read (fixture blobs; the engine data embedded in a
       type layer, which TypeToolObjectSetting parses on read and writes back through the same writer) *)
 Theorem rewrite_unchanged : forall ly d bs, wf_tree (TDict d) = true ->
-  (ly = Indented -> lists_ok (Some O) (TDict d) = true) ->
   write ly d = Ok bs ->
   match parse bs with Ok d' => write ly d' | Err e => Err e end = Ok bs.
 Proof. exact ProofsWrite.rewrite_unchanged. Qed.
@@ -126,30 +126,26 @@ Proof. exact ProofsFuel.parse_total. Qed.
 Print Assumptions parse_never_out_of_fuel.
 
 (* ------------------------------------------------------------------ the guards are needed *)
-(* finding F-C18-2: indented layout, a List starting with a Dict and holding a number: "\t>>5" is one unknown
-   token, the text cannot be read back; with a Float / String / Property / Tag item write() raises TypeError *)
-Theorem mixed_list_refuted : exists d bs,
-  wf_tree (TDict d) = true /\ lists_ok (Some O) (TDict d) = false /\
-  write Indented d = Ok bs /\ parse bs = Err ValueErr.
+(* the witnesses of the former finding F-C18-2 (a List starting with a Dict and holding a number / a Float, which
+   used to be written as the unknown token ">>5" / to raise TypeError) now round-trip in both layouts *)
+Example mixed_list_roundtrips :
+  let d1 := [([97], TList [TDict []; TInt 5])] in
+  let d2 := [([97], TList [TDict []; TFloat (Fl false 550000000 false)])] in
+  (exists bs, write Indented d1 = Ok bs /\ parse bs = Ok d1) /\ (exists bs, write Indented d2 = Ok bs /\ parse bs = Ok d2) /\
+  (exists bs, write Compact d1 = Ok bs /\ parse bs = Ok d1) /\
+  write Indented d1 = Ok [10;10;60;60;10;9;47;97;32;91;10;9;60;60;10;9;62;62;10;9;53;10;9;93;10;62;62].
 Proof.
-  exists [([97], TList [TDict []; TInt 5])]. exists (wv (Some O) (TDict [([97], TList [TDict []; TInt 5])])).
-  repeat split; vm_compute; reflexivity.
+  cbv zeta. repeat split;
+    first [ exists (wv (Some O) (TDict [([97], TList [TDict []; TInt 5])])); split; vm_compute; reflexivity
+          | exists (wv (Some O) (TDict [([97], TList [TDict []; TFloat (Fl false 550000000 false)])])); split; vm_compute; reflexivity
+          | exists (wentries None [([97], TList [TDict []; TInt 5])]); split; vm_compute; reflexivity
+          | vm_compute; reflexivity ].
 Qed.
-Print Assumptions mixed_list_refuted.
 
-Theorem mixed_list_typeerror_refuted : exists d,
-  wf_tree (TDict d) = true /\ lists_ok (Some O) (TDict d) = false /\ write Indented d = Err TypeErr.
-Proof. exists [([97], TList [TDict []; TFloat (Fl false 550000000 false)])]. repeat split. Qed.
-Print Assumptions mixed_list_typeerror_refuted.
-
-(* ... while the same trees round-trip in the compact layout, and with the Dict not in first place *)
-Example mixed_list_compact_ok :
-  (exists bs, write Compact [([97], TList [TDict []; TInt 5])] = Ok bs /\ parse bs = Ok [([97], TList [TDict []; TInt 5])]) /\
-  (exists bs, write Indented [([97], TList [TInt 5; TDict []])] = Ok bs /\ parse bs = Ok [([97], TList [TInt 5; TDict []])]).
-Proof.
-  split; [exists (wentries None [([97], TList [TDict []; TInt 5])])|exists (wv (Some O) (TDict [([97], TList [TInt 5; TDict []])]))];
-    split; vm_compute; reflexivity.
-Qed.
+(* the writers never fail (no write() is reached with an argument it does not take) *)
+Theorem write_total : forall ly d, exists bs, write ly d = Ok bs.
+Proof. exact ProofsWrite.write_total. Qed.
+Print Assumptions write_total.
 
 (* property names outside [A-Za-z0-9_]+ do not survive: "a b" becomes the key "a" and a stray token *)
 Theorem bad_name_refuted : exists d bs,
